@@ -25,10 +25,11 @@ fn naive_pos(h: &[u8], ns: &[u8], rev: bool) -> Option<usize> {
     }
 }
 
-fn one_call(r: &mut Lcg, shared: &Shared) -> u64 {
+fn one_call(r: &mut Lcg, shared: &Shared, first: Option<u64>) -> u64 {
     // one call in four works on a haystack of several 64 KiB blocks with a handful of matches
     // (an answer assembled block-wise or from a partial scan is wrong there)
-    let big = r.below(4) == 0;
+    // (only the FIRST call of a thread can overlap CPU detection: make it a big one more often)
+    let big = if first.is_some() { r.below(4) != 0 } else { r.below(4) == 0 };
     let len = if big { 66_000 + r.below(250_000) as usize } else { r.below(90) as usize };
     let dens = if big { 30_000 + r.below(60_000) } else { r.below(20) + 1 };
     let ns = [b'a', b'b', b'c'];
@@ -42,7 +43,10 @@ fn one_call(r: &mut Lcg, shared: &Shared) -> u64 {
     }
     let h = &buf[off..];
     let mut bad = 0;
-    let which = r.below(9);
+    // the first call of every thread of a process goes to the SAME routine (chosen per process),
+    // so that the threads really race that routine's first-call detection
+    let drawn = r.below(9);
+    let which = first.unwrap_or(drawn);
     match which {
         0..=5 => {
             let rev = which % 2 == 1;
@@ -138,17 +142,23 @@ pub fn child(args: &[String]) {
         hay,
         expected_iter,
     });
-    let barrier = Arc::new(Barrier::new(threads));
+    // a SPIN barrier: all threads leave it within nanoseconds of each other (a mutex/condvar
+    // barrier wakes them one after the other)
+    let barrier = Arc::new(std::sync::atomic::AtomicUsize::new(0));
+    let first_kind = r.below(7);        // one of the seven dispatched routines / count
     let mut handles = Vec::new();
     for t in 0..threads {
         let b = barrier.clone();
         let sh = shared.clone();
         let mut rr = Lcg(seed ^ ((t as u64 + 1) * 0x1234567));
         handles.push(std::thread::spawn(move || {
-            b.wait();
+            b.fetch_add(1, std::sync::atomic::Ordering::SeqCst);
+            while b.load(std::sync::atomic::Ordering::SeqCst) < threads {
+                std::hint::spin_loop();
+            }
             let mut bad = 0u64;
-            for _ in 0..calls {
-                bad += one_call(&mut rr, &sh);
+            for k in 0..calls {
+                bad += one_call(&mut rr, &sh, if k == 0 { Some(first_kind) } else { None });
             }
             bad
         }));
@@ -156,6 +166,41 @@ pub fn child(args: &[String]) {
     let mut bad = 0;
     for h in handles {
         bad += h.join().unwrap_or(1_000_000);
+    }
+    // Phase 2: FRESH finders raced on their very first searches (state that a finder
+    // initialises lazily on first use would be raced here), short haystacks (Rabin-Karp
+    // path) and longer ones, forward and reverse, every answer against the naive search.
+    for round in 0..40u64 {
+        let nl = 2 + r.below(4) as usize;
+        let needle2: Vec<u8> = (0..nl).map(|_| [b'a', b'b'][r.below(2) as usize]).collect();
+        let f = memchr::memmem::Finder::new(&needle2);
+        let fr = memchr::memmem::FinderRev::new(&needle2);
+        let hays: Vec<Vec<u8>> = (0..threads)
+            .map(|_| {
+                let l = if round % 4 == 3 { 40 + r.below(100) as usize } else { nl + r.below(10) as usize };
+                let mut h: Vec<u8> = (0..l).map(|_| [b'a', b'b', b'.'][r.below(3) as usize]).collect();
+                if r.below(4) != 0 && l >= nl {
+                    let at = r.below((l - nl + 1) as u64) as usize;
+                    h[at..at + nl].copy_from_slice(&needle2);
+                }
+                h
+            })
+            .collect();
+        let barrier2 = Barrier::new(threads);
+        let (f, fr, hays, needle2, barrier2) = (&f, &fr, &hays, &needle2, &barrier2);
+        bad += std::thread::scope(|s| {
+            let hs: Vec<_> = (0..threads)
+                .map(|t| {
+                    s.spawn(move || {
+                        barrier2.wait();
+                        let h = &hays[t];
+                        (f.find(h) != crate::ops::naive_find(h, needle2)) as u64
+                            + (fr.rfind(h) != crate::ops::naive_rfind(h, needle2)) as u64
+                    })
+                })
+                .collect();
+            hs.into_iter().map(|h| h.join().unwrap_or(1_000_000)).sum::<u64>()
+        });
     }
     println!("{}", bad);
 }
